@@ -44,6 +44,75 @@ fn roundtrip(name: &str, schema: Arc<Schema>, batch: RecordBatch, opts: IpcWrite
     println!();
 }
 
+/// C04-file-delta-tracker-ahead
+fn tracker_ahead() {
+    use arrow_ipc::writer::DictionaryHandling;
+    let dt = DataType::Dictionary(Box::new(DataType::Int8), Box::new(DataType::Utf8));
+    let schema = Arc::new(Schema::new(vec![Field::new("a", dt.clone(), true), Field::new("b", dt, true)]));
+    let d = |keys: Vec<i8>, vals: Vec<&str>| Arc::new(DictionaryArray::<Int8Type>::new(Int8Array::from(keys), Arc::new(StringArray::from(vals)))) as ArrayRef;
+    let b1 = RecordBatch::try_new(schema.clone(), vec![d(vec![0], vec!["a"]), d(vec![0], vec!["x"])]).unwrap();
+    let b2 = RecordBatch::try_new(schema.clone(), vec![d(vec![1], vec!["a", "b"]), d(vec![0], vec!["y"])]).unwrap();
+    let b3 = RecordBatch::try_new(schema.clone(), vec![d(vec![1], vec!["a", "b", "c"]), d(vec![0], vec!["x"])]).unwrap();
+    let opts = IpcWriteOptions::default().with_dictionary_handling(DictionaryHandling::Delta);
+    let mut w = FileWriter::try_new_with_options(Vec::new(), &schema, opts).unwrap();
+    for (i, b) in [&b1, &b2, &b3].iter().enumerate() {
+        println!("tracker-ahead: write {} -> {:?}", i + 1, w.write(b).map_err(|e| e.to_string().chars().take(60).collect::<String>()));
+    }
+    w.finish().unwrap();
+    let r = FileReader::try_new(std::io::Cursor::new(w.into_inner().unwrap()), None).unwrap();
+    for b in r {
+        println!("tracker-ahead: read {:?}", b.map(|b| vcore::tok::batch_rows(&b)).map_err(|e| e.to_string()));
+    }
+    println!("tracker-ahead: third batch was written as {:?}", vcore::tok::batch_rows(&b3));
+}
+
+/// C04-stream-decoder-dense-union-unaligned
+fn dense_union_decoder() {
+    use arrow_schema::{UnionFields, UnionMode};
+    let fields = UnionFields::try_new(vec![0, 1], vec![Field::new("i", DataType::Int32, true), Field::new("s", DataType::Utf8, true)]).unwrap();
+    let u = UnionArray::try_new(fields.clone(), vec![0i8, 1, 0].into(), Some(vec![0i32, 0, 1].into()), vec![Arc::new(Int32Array::from(vec![1, 2])), Arc::new(StringArray::from(vec!["x"]))]).unwrap();
+    let schema = Arc::new(Schema::new(vec![Field::new("u", DataType::Union(fields, UnionMode::Dense), false)]));
+    let batch = RecordBatch::try_new(schema.clone(), vec![Arc::new(u)]).unwrap();
+    let mut w = StreamWriter::try_new(Vec::new(), &schema).unwrap();
+    w.write(&batch).unwrap();
+    w.finish().unwrap();
+    let bytes = w.into_inner().unwrap();
+    for shift in [0usize, 1] {
+        // the same stream, starting at an aligned / odd address of the caller's buffer
+        let mut padded = vec![0u8; shift];
+        padded.extend_from_slice(&bytes);
+        let r = vcore::guarded(|| {
+            let mut d = arrow_ipc::reader::StreamDecoder::new();
+            let mut buf = arrow_buffer::Buffer::from(padded).slice(shift);
+            let mut n = 0;
+            while !buf.is_empty() {
+                if d.decode(&mut buf).unwrap().is_some() {
+                    n += 1;
+                }
+            }
+            n
+        });
+        println!("dense-union StreamDecoder, buffer shifted by {shift}: {r:?}");
+    }
+}
+
+/// C04-flight-union-field-flags-lost
+fn flight_union_flags() {
+    use arrow_schema::{UnionFields, UnionMode};
+    use futures::TryStreamExt;
+    let fields = UnionFields::try_new(vec![0], vec![Field::new("i", DataType::Int32, true)]).unwrap();
+    let u = UnionArray::try_new(fields.clone(), vec![0i8].into(), None, vec![Arc::new(Int32Array::from(vec![1]))]).unwrap();
+    let f = Field::new("u", DataType::Union(fields, UnionMode::Sparse), true).with_metadata(std::collections::HashMap::from([("k".to_string(), "v".to_string())]));
+    let schema = Arc::new(Schema::new(vec![f]));
+    let batch = RecordBatch::try_new(schema.clone(), vec![Arc::new(u)]).unwrap();
+    let enc = arrow_flight::encode::FlightDataEncoderBuilder::new().build(futures::stream::iter(vec![Ok(batch)]));
+    let msgs: Vec<arrow_flight::FlightData> = futures::executor::block_on(enc.try_collect()).unwrap();
+    let mut st = arrow_flight::decode::FlightRecordBatchStream::new_from_flight_data(futures::stream::iter(msgs.into_iter().map(Ok)));
+    let _: Vec<RecordBatch> = futures::executor::block_on((&mut st).try_collect()).unwrap();
+    println!("flight union field in : {:?}", schema.field(0));
+    println!("flight union field out: {:?}", st.schema().unwrap().field(0));
+}
+
 pub fn run() {
     // RunEndEncoded under metadata V4
     let ree = RunArray::<Int16Type>::try_new(&Int16Array::from(vec![2i16, 3]), &Int64Array::from(vec![Some(7), None])).unwrap();
@@ -60,5 +129,7 @@ pub fn run() {
     }
     let empty = RunArray::<Int32Type>::try_new(&Int32Array::from(Vec::<i32>::new()), &StringArray::from(Vec::<&str>::new())).unwrap();
     roundtrip("ree-empty", schema.clone(), RecordBatch::try_new(schema.clone(), vec![Arc::new(empty)]).unwrap(), IpcWriteOptions::default());
-    let _ = DataType::Null;
+    tracker_ahead();
+    dense_union_decoder();
+    flight_union_flags();
 }
